@@ -74,6 +74,7 @@ Theorem C09_logsoftmax_enclosures_sound w px pm xs m :
   forall zs es s l outs, soft_prefix w px pm xs m zs es s -> near w 8 (ln s) l ->
   Forall2 (fun z o => near w 1 (z - l)%R o) zs outs -> Forall2 encl (soft_slice w true px pm) outs.
 Proof. exact (fexec_logsoftmax w px pm xs m). Qed.
+Print Assumptions C09_softmax_enclosures_sound.
 
 Open Scope string_scope.
 Open Scope Z_scope.
